@@ -94,10 +94,12 @@ fn req(a: &str, b: &str, ic: bool) -> Vec<u64> {
     v
 }
 
-const WORDS: &[&str] = &["a", "b", "A", "ab", "Ab", "c", "\u{3a3}\u{391}\u{3a3}", "\u{130}x", "stra\u{df}e", "STRASSE"];
+const WORDS: &[&str] = &["a", "b", "A", "ab", "Ab", "c", "\u{3a3}\u{391}\u{3a3}", "\u{130}x", "stra\u{df}e", "STRASSE",
+    // pairs that are equal under str::to_lowercase but not under ASCII case folding
+    "\u{3c3}\u{3b1}\u{3c2}", "\u{dc}ber", "\u{fc}ber", "\u{c9}COLE", "\u{e9}cole", "i\u{307}x", "\u{41f}\u{420}\u{418}", "\u{43f}\u{440}\u{438}"];
 const SEPS: &[&str] = &[" ", "  ", "\t", "\n", " \r\n", "\u{c}"];
 
-fn text(ctx: &mut Ctx, max_words: usize, vocab: usize) -> String {
+fn text(ctx: &mut Ctx, max_words: usize, vocab: (usize, usize)) -> String {
     let n = ctx.rng.random_range(0..=max_words);
     let mut s = String::new();
     if ctx.rng.random_bool(0.2) {
@@ -107,7 +109,7 @@ fn text(ctx: &mut Ctx, max_words: usize, vocab: usize) -> String {
         if i > 0 {
             s.push_str(SEPS[ctx.rng.random_range(0..SEPS.len())]);
         }
-        s.push_str(WORDS[ctx.rng.random_range(0..vocab)]);
+        s.push_str(WORDS[ctx.rng.random_range(vocab.0..vocab.1)]);
     }
     if ctx.rng.random_bool(0.2) {
         s.push_str(SEPS[ctx.rng.random_range(0..SEPS.len())]);
@@ -117,7 +119,7 @@ fn text(ctx: &mut Ctx, max_words: usize, vocab: usize) -> String {
 
 pub fn run_c18(ctx: &mut Ctx) {
     if ctx.first_shard() {
-        for (a, b) in [("", ""), ("a", ""), ("", "a"), ("a b c", "b x c"), ("a a a", "a a"), ("A b", "a B"), ("a\u{b}b", "a b"), ("a\u{a0}b", "a b")] {
+        for (a, b) in [("", ""), ("a", ""), ("", "a"), ("a b c", "b x c"), ("a a a", "a a"), ("A b", "a B"), ("a\u{b}b", "a b"), ("a\u{a0}b", "a b"), ("\u{dc}ber den Wolken", "\u{fc}ber den wolken"), ("\u{3a3}\u{391}\u{3a3} x", "\u{3c3}\u{3b1}\u{3c2} X")] {
             for ic in [false, true] {
                 ctx.case("matchw", &req(a, b, ic));
             }
@@ -153,7 +155,7 @@ pub fn run_c18(ctx: &mut Ctx) {
     }
     let n = ctx.budget(4000, 200000);
     for i in 0..n {
-        let vocab = if i % 3 == 0 { 3 } else if i % 3 == 1 { 6 } else { WORDS.len() };
+        let vocab = [(0, 3), (0, 6), (0, WORDS.len()), (6, WORDS.len())][(i % 4) as usize];
         let a = text(ctx, if i % 10 == 0 { 12 } else { 6 }, vocab);
         let b = text(ctx, if i % 10 == 0 { 12 } else { 6 }, vocab);
         let ic = ctx.rng.random_bool(0.5);
